@@ -21,6 +21,7 @@ import (
 	"github.com/ah-naf/borno/parser"
 	"github.com/ah-naf/borno/token"
 	"github.com/ah-naf/borno/utils"
+	"golang.org/x/text/unicode/norm"
 )
 
 type Case struct {
@@ -270,6 +271,95 @@ func main() {
 	w := bufio.NewWriterSize(os.Stdout, 1<<20)
 	defer w.Flush()
 	switch mode {
+	case "nfctables":
+		// Unicode normalisation data of the very x/text version the interpreter is linked with, as Coq tables:
+		// full canonical decompositions (Hangul syllables excepted: algorithmic), canonical combining classes,
+		// and the primary composites as (first, second, composite)
+		fmt.Fprintf(w, "(* generated by godump nfctables from golang.org/x/text/unicode/norm, Unicode %s; do not edit *)\n", norm.Version)
+		fmt.Fprint(w, "From Coq Require Import NArith List.\nImport ListNotations.\nOpen Scope N_scope.\n\n")
+		cps := func(rs []rune) string {
+			parts := make([]string, len(rs))
+			for i, r := range rs {
+				parts[i] = fmt.Sprintf("%d", r)
+			}
+			return "[" + strings.Join(parts, ";") + "]"
+		}
+		var nfd, comp, ccc []string
+		cccStart, cccPrev, cccVal := -1, -1, 0
+		flushCcc := func() {
+			if cccStart >= 0 {
+				ccc = append(ccc, fmt.Sprintf("(%d,%d,%d)", cccStart, cccPrev, cccVal))
+			}
+			cccStart = -1
+		}
+		for cp := 0; cp <= 0x10FFFF; cp++ {
+			if cp >= 0xD800 && cp <= 0xDFFF {
+				continue
+			}
+			r := rune(cp)
+			c := int(norm.NFD.PropertiesString(string(r)).CCC())
+			if c != 0 {
+				if cccStart >= 0 && cccPrev == cp-1 && cccVal == c {
+					cccPrev = cp
+				} else {
+					flushCcc()
+					cccStart, cccPrev, cccVal = cp, cp, c
+				}
+			}
+			if cp >= 0xAC00 && cp <= 0xD7A3 {
+				continue
+			}
+			d := []rune(norm.NFD.String(string(r)))
+			if len(d) != 1 || d[0] != r {
+				nfd = append(nfd, fmt.Sprintf("(%d,%s)", cp, cps(d)))
+				if len(d) >= 2 && norm.NFC.String(string(d)) == string(r) {
+					first := []rune(norm.NFC.String(string(d[:len(d)-1])))
+					if len(first) == 1 && norm.NFC.String(string([]rune{first[0], d[len(d)-1]})) == string(r) {
+						comp = append(comp, fmt.Sprintf("(%d,%d,%d)", first[0], d[len(d)-1], cp))
+					}
+				}
+			}
+		}
+		flushCcc()
+		emitList := func(name, ty string, items []string) {
+			fmt.Fprintf(w, "Definition %s : list %s := [\n", name, ty)
+			for i, it := range items {
+				sep := ";"
+				if i == len(items)-1 {
+					sep = ""
+				}
+				fmt.Fprintf(w, "  %s%s\n", it, sep)
+			}
+			fmt.Fprint(w, "].\n\n")
+		}
+		emitList("gen_nfd", "(N * list N)", nfd)
+		emitList("gen_ccc", "(N * N * N)", ccc)
+		emitList("gen_comp", "(N * N * N)", comp)
+	case "nfc":
+		// reference: NFC of each input text (one JSON case per line: {id, cps})
+		sc := bufio.NewScanner(os.Stdin)
+		sc.Buffer(make([]byte, 1<<20), 1<<26)
+		for sc.Scan() {
+			var c struct {
+				ID  string `json:"id"`
+				Cps []int  `json:"cps"`
+			}
+			if json.Unmarshal(sc.Bytes(), &c) != nil {
+				continue
+			}
+			rs := make([]rune, len(c.Cps))
+			for i, x := range c.Cps {
+				rs[i] = rune(x)
+			}
+			out := []rune(norm.NFC.String(string(rs)))
+			ints := make([]int, len(out))
+			for i, x := range out {
+				ints[i] = int(x)
+			}
+			b, _ := json.Marshal(map[string]interface{}{"id": c.ID, "cps": ints})
+			w.Write(b)
+			w.WriteByte('\n')
+		}
 	case "cpsweep":
 		// every code point on its own: token type (or -1 = no token), diagnostic flag,
 		// and whether ConvertBanglaDigitsToASCII changes it (and to what).  Run-length compressed.
